@@ -464,37 +464,47 @@ theorem Scn.idsRemoveAll_net (s : Scn) (is : List Id) : (s.idsRemoveAll is).1.ne
         | none => exact absurd hr (hne s1)
         | some e => rw [hr] at this; exact this
 
-/-- A predicate on networks kept by one network operation is kept by the scenario loop over it. -/
-theorem Scn.loop_inv (f : Net → Id → Net) (loop : Scn → List Id → Scn × Option Err)
-    (hnil : ∀ s, loop s [] = (s, none))
-    (hcons : ∀ s i is, loop s (i :: is) =
+/-- the shape shared by the three scenario-level loops: look the element up (`kind`), remove it from the network
+(`f`), remove its id from the pool -/
+def LoopShape (kind : Net → List Id) (f : Net → Id → Net) (loop : Scn → List Id → Scn × Option Err) : Prop :=
+  (∀ s, loop s [] = (s, none)) ∧
+  ∀ s i is, loop s (i :: is) =
+    if (kind s.net).contains i then
       match ({ s with net := f s.net i } : Scn).idsRemove i with
       | (s2, none) => loop s2 is
-      | r => r)
+      | r => r
+    else (s, some .key)
+
+theorem loopShape_signs : LoopShape Net.sids Net.removeSign Scn.removeSigns := ⟨fun _ => rfl, fun _ _ _ => rfl⟩
+theorem loopShape_lights : LoopShape Net.tids Net.removeLight Scn.removeLights := ⟨fun _ => rfl, fun _ _ _ => rfl⟩
+theorem loopShape_lanelets : LoopShape Net.lids Net.removeLanelet Scn.removeLaneletLoop := ⟨fun _ => rfl, fun _ _ _ => rfl⟩
+
+/-- A predicate on networks kept by one network operation is kept by the scenario loop over it. -/
+theorem Scn.loop_inv {kind : Net → List Id} {f : Net → Id → Net} {loop : Scn → List Id → Scn × Option Err}
+    (hl : LoopShape kind f loop)
     (Q : Net → Prop) (hf : ∀ n i, Q n → Q (f n i)) (s : Scn) (is : List Id) (h : Q s.net) : Q (loop s is).1.net := by
   induction is generalizing s with
-  | nil => rw [hnil]; exact h
+  | nil => rw [hl.1]; exact h
   | cons i is ih =>
-    rw [hcons]
-    have hn := Scn.idsRemove_net ({ s with net := f s.net i } : Scn) i
-    cases hr : ({ s with net := f s.net i } : Scn).idsRemove i with
-    | mk s1 e =>
-      rw [hr] at hn
-      cases e with
-      | none => exact ih s1 (by rw [hn]; exact hf _ _ h)
-      | some e => show Q s1.net; rw [hn]; exact hf _ _ h
+    rw [hl.2]
+    split
+    · have hn := Scn.idsRemove_net ({ s with net := f s.net i } : Scn) i
+      cases hr : ({ s with net := f s.net i } : Scn).idsRemove i with
+      | mk s1 e =>
+        rw [hr] at hn
+        cases e with
+        | none => exact ih s1 (by rw [hn]; exact hf _ _ h)
+        | some e => show Q s1.net; rw [hn]; exact hf _ _ h
+    · exact h
 
 theorem Scn.removeSigns_inv (Q : Net → Prop) (hf : ∀ n i, Q n → Q (n.removeSign i)) (s : Scn) (is : List Id)
-    (h : Q s.net) : Q (s.removeSigns is).1.net :=
-  Scn.loop_inv Net.removeSign Scn.removeSigns (fun _ => rfl) (fun _ _ _ => rfl) Q hf s is h
+    (h : Q s.net) : Q (s.removeSigns is).1.net := Scn.loop_inv loopShape_signs Q hf s is h
 
 theorem Scn.removeLights_inv (Q : Net → Prop) (hf : ∀ n i, Q n → Q (n.removeLight i)) (s : Scn) (is : List Id)
-    (h : Q s.net) : Q (s.removeLights is).1.net :=
-  Scn.loop_inv Net.removeLight Scn.removeLights (fun _ => rfl) (fun _ _ _ => rfl) Q hf s is h
+    (h : Q s.net) : Q (s.removeLights is).1.net := Scn.loop_inv loopShape_lights Q hf s is h
 
 theorem Scn.removeLaneletLoop_inv (Q : Net → Prop) (hf : ∀ n i, Q n → Q (n.removeLanelet i)) (s : Scn) (is : List Id)
-    (h : Q s.net) : Q (s.removeLaneletLoop is).1.net :=
-  Scn.loop_inv Net.removeLanelet Scn.removeLaneletLoop (fun _ => rfl) (fun _ _ _ => rfl) Q hf s is h
+    (h : Q s.net) : Q (s.removeLaneletLoop is).1.net := Scn.loop_inv loopShape_lanelets Q hf s is h
 
 theorem Scn.removeHanging_inv (Q : Net → Prop) (hs : ∀ n i, Q n → Q (n.removeSign i))
     (ht : ∀ n i, Q n → Q (n.removeLight i)) (s : Scn) (args : List RmArg) (h : Q s.net) :
@@ -523,5 +533,22 @@ theorem Scn.removeLanelets_inv (Q : Net → Prop) (hl : ∀ n i, Q n → Q (n.re
       cases e with
       | none => exact Scn.removeLaneletLoop_inv Q hl s1 _ h1
       | some e => exact h1
+
+/-- `Scenario.remove_intersection`: whether or not it raises, the network afterwards is the network without the
+intersection (when the network holds no such intersection nothing is removed) -/
+theorem Scn.removeInter_net (s : Scn) (x : Id) : (s.removeInter x).1.net = s.net.removeInter x := by
+  unfold Scn.removeInter
+  cases hf : s.net.inters.find? (fun i => i.id == x) with
+  | some i => simp only; rw [Scn.idsRemoveAll_net]
+  | none =>
+    simp only
+    rw [List.find?_eq_none] at hf
+    have : s.net.inters.filter (fun i => i.id != x) = s.net.inters := by
+      apply List.filter_eq_self.2
+      intro i hi
+      have := hf i hi
+      simpa using this
+    unfold Net.removeInter
+    rw [this]
 
 end CR.Refs
